@@ -76,8 +76,12 @@ class Run:
                 stdout = ''
                 stderr = f'timeout after {timeout}s'
                 timed_out = True
+            if check:
+                self.violation({'kind': 'driver-crash-or-hang', 'driver': module, 'args': [str(a) for a in args][:3], 'rc': 'timeout',
+                                'stderr': f'no result after {timeout}s'},
+                               f'{module} did not come back within {timeout}s while exercising the engine: non-termination')
             return _T()
-        if check and p.returncode < 0:
+        if check and (p.returncode < 0 or p.returncode == 98):
             # killed by a signal (segfault, abort) or by the watchdog: the engine crashed / hung while being exercised for this
             # property - the operation did not deliver what the property promises
             self.violation({'kind': 'driver-crash-or-hang', 'driver': module, 'args': [str(a) for a in args][:3], 'rc': p.returncode,
